@@ -287,8 +287,10 @@ func (s *Sched) Blocked(site uint32) {
 		runtime.Gosched()
 		return
 	}
+	// a failed attempt to take a lock is global time, but not progress (or
+	// lack of progress) of the task's operation: a caller legitimately waits
+	// as long as the holder needs
 	s.Steps++
-	t.Steps++
 	if int(site) < len(s.SiteHits) {
 		s.SiteHits[site]++
 	}
